@@ -81,7 +81,7 @@ def build(fileseed, rows, eol):
             # an ignored statement that happens to carry a (large) reference: skipped means skipped - it must not steer the numbering
             hi_ref = 3000000000 + n
         f["bang"] = {"name_then_newline": "nl", "spaced": "both", "comment_between": "cm"}.get(spelling, "tight")
-        f["lay"] = "nl" if multiline else "tight"
+        f["lay"] = (multiline if isinstance(multiline, str) else "nl") if multiline else "tight"
         f["nkv"] = rnd.choice([0, 1, 2])
         f["target"] = rnd.choice(["none", "plain"])
         f["pre"] = "bol"
@@ -137,10 +137,16 @@ def build(fileseed, rows, eol):
         elif row["mb"] == "code_before":
             # the statement is not the first thing on its line (match arm, one-line if, let, return)
             gf.raw(rnd.choice(["Err(e) => ", "if verbose { ", "let _r = ", "return ", "Some(v) => { v; ", "x.iter().for_each(|v| "]))
+        # a statement spread over several lines closes either with the bracket on a line of its own or right after its last argument
+        ml = rnd.choice(["nl", "nlhug", "linec"]) if row["multiline"] else False
         for k in range(row["nstmts"]):
             last = (k == row["nstmts"] - 1)
-            stmt(row["multiline"] and last, "subject", row, eff, pre=" " if k else "",
+            stmt(ml if last else False, "subject", row, eff, pre=" " if k else "",
                  spelling=row.get("spelling", "tight") if last else "tight")
+        if ml and rnd.random() < 0.6:
+            # another statement on the line on which the multi-line one closes: it starts on a different line, and the line before that
+            # one is part of the statement above (code) - no directive reaches it
+            stmt(False, "tail_on_closing_line", row, "none", pre=" ")
         if b == "directive_trailing":
             gf.raw(" " + comment(directive_text(row["directive"], rnd), dict(row, cstyle="line"), rnd))
         gf.newline()
